@@ -398,7 +398,8 @@ Fixpoint body_ok (l : string) : bool :=
   | String a r => andb (printable a) (body_ok r)
   end.
 
-(* the first non-blank character is a c at index >= 5 that MontePy would take for a comment mark *)
+(* the first non-blank character is a c at index >= 5 that MontePy's is_comment takes for a comment mark:
+   exactly at index 5 (whatever follows), or beyond when a blank follows *)
 Fixpoint late_c_from (k : nat) (s : string) : bool :=
   match s with
   | EmptyString => false
@@ -406,7 +407,7 @@ Fixpoint late_c_from (k : nat) (s : string) : bool :=
       if is_blank a then late_c_from (S k) r
       else andb (orb (Ascii.eqb a "c"%char) (Ascii.eqb a "C"%char))
                 (andb (Nat.leb 5 k)
-                      (orb (Nat.eqb k 5) (match r with EmptyString => true | String b _ => is_blank b end)))
+                      (orb (Nat.eqb k 5) (match r with EmptyString => false | String b _ => is_blank b end)))
   end.
 Definition late_c (x : string) : bool := late_c_from 0 x.
 
@@ -427,12 +428,102 @@ Fixpoint wf_from (w bi : nat) (first amp cm : bool) (f : list string) : bool :=
 
 Definition wf_lines (w : nat) (f : list string) : bool := wf_from w 0 true false false f.
 
+(* ================================================================== C11: logical content, repaired reader
+   The logical content of an input: its block type and the words of its data, i.e. of every line that is not a
+   comment line (rule S5 on the stored line) the maximal runs of non-blank characters before the first '$',
+   without the words "&" (MontePy's grammar: padding ::= padding "&").  Start line numbers, comment texts, blank
+   runs and the way the words are spread over lines are not part of it. *)
+Definition not_amp (s : string) : bool := negb (String.eqb s "&").
+
+Definition line_words (x : string) : list string :=
+  if spec_comment x then [] else filter not_amp (words (spec_data x)).
+
+Definition logical_input (i : input) : nat * list string := (i_bt i, flat_map line_words (i_lines i)).
+Definition logical (ins : list input) : list (nat * list string) := map logical_input ins.
+
+(* proposed repair C11-1 of read_data:
+       if not line_is_comment:
+           continue_input = line.split("$")[0].rstrip().endswith(" &")
+   instead of   continue_input = line.endswith(" &\n")   evaluated on every line *)
+Definition amp_data (line' : string) : bool :=
+  ends_with (String sp (String "&"%char "")) (rstrip (spec_data line')).
+Definition amp_nl (line' : string) : bool :=
+  ends_with (String sp (String "&"%char (String nl ""))) line'.
+
+Fixpoint rd_loop_fix (w : nat) (ls : list string) (lineno bc bt : nat) (cont hnc : bool) (raw : list string)
+  : list input * option rd_err :=
+  match ls with
+  | [] => (flush bt raw lineno, None)
+  | l :: r =>
+      let lineno' := S lineno in
+      let line := expandtabs TABSIZE l in
+      let c := is_comment line in
+      if all_space line then
+        let bc' := S bc in
+        let bt' := if Nat.ltb bc' 3 then bc' else bt in
+        let (out, e) := rd_loop_fix w r lineno' bc' bt' cont false [] in
+        (List.app (flush bt raw lineno') out, e)
+      else
+        let newinp := andb (negb (all_space (takeS BLANK_SPACE_CONTINUE line)))
+                     (andb (negb cont) (andb (negb c) (andb hnc (nonempty raw)))) in
+        let pre := if newinp then flush bt raw lineno' else [] in
+        let raw1 := if newinp then [] else raw in
+        if andb (contains "#"%char (takeS BLANK_SPACE_CONTINUE line)) (negb c)
+        then (pre, Some UnsupportedFeature)
+        else
+          let line' := takeS w line in
+          let cont' := if c then cont else amp_data line' in
+          let (out, e) := rd_loop_fix w r lineno' bc bt cont' (orb hnc (negb c)) (List.app raw1 [rstrip line']) in
+          (List.app pre out, e)
+  end.
+
+Definition read_data_fix_from (w : nat) (bt : nat) (ls : list string) : list input * option rd_err :=
+  rd_loop_fix w ls 0 0 bt false false [].
+
+(* what a whole file (list of raw lines as iterated from the binary file) is read as *)
+Definition obs := (option string * list (nat * list string) * option rd_err)%type.
+
+Definition read_lines (w : nat) (f : list string) : obs :=
+  let fm := read_front_matters (map clean_line f) in
+  let (ins, e) := read_data_from w 0 (f_rest fm) in (f_title fm, logical ins, e).
+
+Definition read_lines_fix (w : nat) (f : list string) : obs :=
+  let fm := read_front_matters (map clean_line f) in
+  let (ins, e) := read_data_fix_from w 0 (f_rest fm) in (f_title fm, logical ins, e).
+
+(* the files on which the current continue_input computation agrees with the repaired one (cleaned lines):
+   no comment line ends in " &" or follows (directly or after other comment lines) a line continued by '&',
+   a data line ends in " &" + LF exactly when its data (before '$', trailing blanks dropped) ends in " &",
+   and no block ends with a continued line *)
+Fixpoint amp_tidy_from (w : nat) (cont : bool) (ls : list string) : bool :=
+  match ls with
+  | [] => true
+  | l :: r =>
+      let line := expandtabs TABSIZE l in
+      if all_space line then andb (negb cont) (amp_tidy_from w false r)
+      else
+        let c := is_comment line in
+        if andb (contains "#"%char (takeS BLANK_SPACE_CONTINUE line)) (negb c) then true
+        else
+          let line' := takeS w line in
+          if c then andb (negb cont) (andb (negb (amp_nl line')) (amp_tidy_from w false r))
+          else andb (Bool.eqb (amp_nl line') (amp_data line')) (amp_tidy_from w (amp_data line') r)
+  end.
+
+Definition amp_tidy (w : nat) (f : list string) : bool :=
+  amp_tidy_from w false (f_rest (read_front_matters (map clean_line f))).
+
+Definition within_limit (w : nat) (f : list string) : bool :=
+  forallb (fun l => Nat.leb (String.length (expandtabs TABSIZE (clean_line l))) w) f.
+
 (* ================================================================== wire
    lines travel hex-encoded, joined by ',' ; "-" is the empty list
      data <w> <bt> <hexbytes>     read_data on the cleaned lines of the bytes (a sub-file)
      file <w> <hexbytes>          whole top-level file
      spec <w> <hexbytes>          spec_cards on the cleaned lines after the front matter
      wf <w> <hexbytes>            wf_lines on the cleaned lines after the front matter
+     logical <w> <hexbytes>       read_lines, read_lines_fix (title, logical inputs, error), amp_tidy, within_limit
+     datafix <w> <bt> <hexbytes>  as data, with the reader carrying proposed repair C11-1
      iscomment <hex>   clean <hex>   expand <hex>   lines <hexbytes> *)
 Definition show_input (i : input) : string :=
   show_nat (i_bt i) ++ ":" ++ show_nat (i_start i) ++ ":" ++ show_list hex_encode (i_lines i).
@@ -482,6 +573,27 @@ Definition run_Lines (req : string) : string :=
       match parse_nat w with
       | Some W => if wf_lines W (f_rest (read_front_matters (file_lines (hex_decode h)))) then "1" else "0"
       | None => "parse:err"
+      end
+  | ["logical"; w; h] =>
+      match parse_nat w with
+      | Some W =>
+          let f := split_lines (hex_decode h) in
+          let show_o (o : obs) :=
+            match o with (t, lg, e) =>
+              show_opt t ++ " " ++
+              (match lg with [] => "-" | _ => join ";" (map (fun c => show_nat (fst c) ++ ":" ++ show_list hex_encode (snd c)) lg) end)
+              ++ " " ++ show_err e end in
+          show_o (read_lines W f) ++ " " ++ show_o (read_lines_fix W f) ++ " " ++
+          (if amp_tidy W f then "1" else "0") ++ " " ++ (if within_limit W f then "1" else "0")
+      | None => "parse:err"
+      end
+  | ["datafix"; w; bt; h] =>
+      match parse_nat w, parse_nat bt with
+      | Some W, Some B =>
+          let ls := file_lines (hex_decode h) in
+          let (ins, e) := read_data_fix_from W B ls in
+          show_inputs ins ++ " " ++ show_err e ++ " " ++ show_nat (overrun_count W ls)
+      | _, _ => "parse:err"
       end
   | ["iscomment"; h] => if is_comment (hex_decode h) then "1" else "0"
   | ["clean"; h] => hex_encode (clean_line (hex_decode h))
